@@ -662,10 +662,16 @@ def _check(case, v):
                 with DIP(env, name=f"c16_{next(_uid)}") as p2:
                     p2.add_string(case["stage2"])
                     env = p2.parse()
-        data = env.data(Format.TUPLE)
         raised = None
     except Exception as e:
         raised = e
+    if raised is None:
+        try:
+            data = env.data(Format.TUPLE)
+        except Exception as e:
+            # parse() returned: a refusal has to come from parse(), an environment that cannot be read is not one
+            return v.fail("violation-accepted" if not case["expect_ok"] else "unreadable",
+                          f"parse() returned an environment whose data() raises {e!r}:\n{text}")
     if case["expect_ok"]:
         if raised is not None:
             return v.fail("valid-rejected", f"all constraints are satisfied but parse raised {raised!r}:\n{text}")
